@@ -159,8 +159,13 @@ def guarded(sess, name, desc, bounds, body):
     return sess.add(ob)
 
 
-def check_viol(sess, ob, conds, viol, lemmas, witness_of, extra=None, refine=None):
+def check_viol(sess, ob, conds, viol, lemmas, witness_of, extra=None, refine=None, prefer=None):
     r, model = sess.decide(ob, list(conds) + [viol], lemmas, refine=refine)
+    if r == 'sat' and prefer:
+        # ask again for a small witness (one the native replay can run); any model is a witness, a small one replays
+        r2, m2 = sess.decide(ob, list(conds) + [viol] + list(prefer), lemmas, refine=refine)
+        if r2 == 'sat':
+            model = m2
     if r == 'sat':
         w = witness_of(model)
         if extra:
@@ -184,9 +189,9 @@ def ob_convert_index(sess):
         valid = z3.And(i >= 0, i < L)
         for v, p, m in outs:
             if v.variant == 'Ok':
-                check_viol(sess, ob, p.conds, z3.Or(z3.Not(valid), v.fields[0] != i), [], wit)
+                check_viol(sess, ob, p.conds, z3.Or(z3.Not(valid), v.fields[0] != i), [], wit, prefer=[L <= 8])
             else:
-                check_viol(sess, ob, p.conds, valid, [], wit)
+                check_viol(sess, ob, p.conds, valid, [], wit, prefer=[L <= 8])
         # non-int argument -> error, never a panic
         outs2 = ex.run(fn, [Enum('Other', [], 'Value'), L], Path([L >= 0, L <= I32_MAX]))
         for v, p, m in outs2:
@@ -222,13 +227,13 @@ def ob_slice_indices(sess):
                 if v.variant == 'Err':
                     if has_other:
                         continue
-                    check_viol(sess, ob, p.conds, step != 0, [], wit)   # error allowed only for step == 0
+                    check_viol(sess, ob, p.conds, step != 0, [], wit, prefer=[L <= 8])   # error allowed only for step == 0
                 else:
                     if has_other:
                         ob.fail(dict(wit(None) if False else {'kind': 'slice', 'note': 'non-int slice argument accepted'}))
                         continue
                     tup = v.fields[0]
-                    check_viol(sess, ob, p.conds, z3.Or(step == 0, tup.fields[0] != rs, tup.fields[1] != re_, tup.fields[2] != step), [], wit)
+                    check_viol(sess, ob, p.conds, z3.Or(step == 0, tup.fields[0] != rs, tup.fields[1] != re_, tup.fields[2] != step), [], wit, prefer=[L <= 8])
             return finish(sess, ob, ex, outs, t1, wit)
         obs.append(guarded(sess, f'C01.slice_indices[{ks},{ke},{kt}]', 'slice bounds = CPython slice.indices(len) (PySlice_AdjustIndices); error iff step == 0 or a non-int argument',
                            'every i32 / None / absent start, stop, step; every len in 0..2^31-1', body))
@@ -457,7 +462,7 @@ def ob_convert_indices(sess):
         ob.paths = len(outs)
         wit = lambda m: {'kind': 'clamp', 'len': model_int(m, L), 'start': model_int(m, s)}
         for v, p, m in outs:
-            check_viol(sess, ob, p.conds, v != py_clamp_index(s, L), [], wit)
+            check_viol(sess, ob, p.conds, v != py_clamp_index(s, L), [], wit, prefer=[L <= 8])
         return finish(sess, ob, ex, outs, t1, wit)
     obs.append(guarded(sess, 'C01.syntax_convert_index', 'list.insert / index start normalisation = Python (negative from the end, clamped to [0, len])', 'every i32, every len in 0..2^31-1', body1))
     for ks, ke in itertools.product(('none', 'some'), repeat=2):
@@ -473,7 +478,7 @@ def ob_convert_indices(sess):
             ws = py_clamp_index(s, L) if ks == 'some' else z3.IntVal(0)
             we = py_clamp_index(e, L) if ke == 'some' else L
             for v, p, m in outs:
-                check_viol(sess, ob, p.conds, z3.Or(v.fields[0] != ws, v.fields[1] != we), [], wit)
+                check_viol(sess, ob, p.conds, z3.Or(v.fields[0] != ws, v.fields[1] != we), [], wit, prefer=[L <= 8])
             return finish(sess, ob, ex, outs, t1, wit)
         obs.append(guarded(sess, f'C01.syntax_convert_indices[{ks},{ke}]', 'str.find/count/index start,end normalisation = Python', 'every i32 / None, every len in 0..2^31-1', body2))
     return obs
@@ -585,8 +590,9 @@ def replay_witness(w, rp):
             else:
                 s, e = w['start'], w['end']
                 args = ', '.join(str(v) if v is not None else 'None' for v in (s, e))
-                cases = [{'kind': 'eval', 'program': f'("a" * {L}).count("a", {args})'}]
-                expect = ('ok', str(('a' * L).count('a', s, e)))
+                t = 'a' * L
+                cases = [{'kind': 'eval', 'program': f'(("a" * {L}).count("a", {args}), ("a" * {L}).count("", {args}), ("a" * {L}).find("", {args}), ("a" * {L}).rfind("", {args}))'}]
+                expect = ('ok', str((t.count('a', s, e), t.count('', s, e), t.find('', s, e), t.rfind('', s, e))))
         role = 'index clamp'
     elif k == 'selection':
         from . import c01_slice
@@ -612,3 +618,86 @@ def replay_witness(w, rp):
             elif expect[0] == 'err' and 'err' not in g:
                 repro = True
     return {'reproduced': repro, 'role': role, 'detail': f'expected {expect}; native {str(got)[:500]}', 'cases': cases}
+
+
+# ----------------------------------------------------------------------------- translator validation (Serval-style)
+def validate(sess, rp):
+    """concrete vectors (the repository's own unit-test inputs plus a boundary grid) through the encoding and through the native build"""
+    from . import c01_slice
+    mism = []
+    cases, meta = [], []
+    f = lambda v: '' if v is None else str(v)
+    # 1. sequence slicing through apply_slice
+    ex = sess.executor(True, extra=c01_slice.SEQ + EXTRA)
+    fn = ex.get_fn(sess.db.find(r'^fn (?:[\w:]*::)?apply_slice\(_1: &\[T\]'))
+    grid = [None, -8, -7, -2, -1, 0, 1, 3, 6, 7, I32_MAX, I32_MIN]
+    steps = [None, 1, -1, 2, -2, 3, -3, I32_MAX, I32_MIN]
+    unit = [(7, -1, None, -1), (7, None, None, None), (7, 6, None, None), (7, -1, 10, None), (7, None, None, I32_MIN)]    # values/index.rs tests
+    vecs = [(L, s, e, t) for L in (0, 1, 5, 6) for s in grid for e in grid for t in steps] + unit
+    for L, s, e, t in vecs:
+        if L > 6:
+            xs_len = L
+        mk = lambda v: Enum('None', [], 'Option') if v is None else SOME(Enum('Int', [z3.IntVal(v)], 'Value'))
+        xs = Slice(z3.IntVal(L), [z3.IntVal(i) for i in range(L)], 'input')
+        try:
+            outs = ex.run(fn, [xs, mk(s), mk(e), mk(t)], Path())
+        except Unsupported as ex_:
+            mism.append(f'apply_slice({L},{s},{e},{t}): {ex_}')
+            continue
+        if len(outs) != 1:
+            mism.append(f'apply_slice({L},{s},{e},{t}): {len(outs)} concrete paths')
+            continue
+        v, p, m = outs[0]
+        enc = 'err' if v.variant == 'Err' else [z3.simplify(x).as_long() for x in ex.deref(m, v.fields[0]).elems]
+        cases.append({'kind': 'eval', 'program': f'list(range({L}))[{f(s)}:{f(e)}:{f(t)}]'})
+        meta.append((f'slice len={L} [{f(s)}:{f(e)}:{f(t)}]', 'err' if enc == 'err' else str(enc)))
+    sess.absorb(ex)
+    # 2. ranges: length, indexing, membership (range_type.rs unit-test inputs + boundary grid)
+    ex = sess.executor(True, extra=EXTRA)
+    fl = ex.get_fn(sess.db.find_in_file('range_type.rs', 'length', r'_1: &range_type::Range\)'))
+    fa = ex.get_fn(sess.db.find_in_file('range_type.rs', 'at', r'_1: &range_type::Range'))
+    fi = ex.get_fn(sess.db.find_in_file('range_type.rs', 'is_in', r'_1: &range_type::Range'))
+    bgrid = [I32_MIN, I32_MIN + 1, -7, -1, 0, 1, 10, I32_MAX - 1, I32_MAX]
+    sgrid = [I32_MIN, -1024, -3, -1, 1, 2, 10, I32_MAX]
+    unit_r = [(0, 0, 1), (0, 17, 1), (10, 30, 1), (10, -30, 1), (0, I32_MAX, 1), (-1, I32_MAX, 1), (0, 10, 2), (0, 9, 2), (0, 10, -2), (10, 0, -2), (9, 0, -2), (4, 14, 10)]
+    rvecs = unit_r + [(a, b, c) for a in bgrid for b in bgrid for c in sgrid]
+    for a, b, c in rvecs:
+        mem = {('h', 'r'): Struct([z3.IntVal(a), z3.IntVal(b), z3.IntVal(c)], 'Range')}
+        outs = ex.run(fl, [Ref(('h', 'r'))], Path(), mem=mem)
+        v = outs[0][0]
+        enc = 'err' if v.variant == 'Err' else str(z3.simplify(v.fields[0]).as_long())
+        cases.append({'kind': 'eval', 'program': f'len(range({a},{b},{c}))'})
+        meta.append((f'len(range({a},{b},{c}))', enc))
+        for idx in (0, -1, 5):
+            outs = ex.run(fa, [Ref(('h', 'r')), Enum('Int', [z3.IntVal(idx)], 'Value'), Opaque('heap')], Path(), mem=mem)
+            v = outs[0][0]
+            enc = 'err' if v.variant == 'Err' else str(z3.simplify(v.fields[0].fields[0]).as_long())
+            cases.append({'kind': 'eval', 'program': f'range({a},{b},{c})[{idx}]'})
+            meta.append((f'range({a},{b},{c})[{idx}]', enc))
+        for x in (a, b, a + c if I32_MIN <= a + c <= I32_MAX else 0):
+            other = Struct([Enum('Int', [Enum('Small', [z3.IntVal(x)], 'StarlarkIntRef')], 'NumRef')], 'ValueNum')
+            s2 = z3.Solver()
+            outs = ex.run(fi, [Ref(('h', 'r')), other], Path(), mem=mem)
+            val = None
+            for v, p, m in outs:
+                s2.push()
+                for cnd in p.conds + ex.uf_defs:
+                    s2.add(cnd)
+                if s2.check() == z3.sat:
+                    val = s2.model().eval(v.fields[0], model_completion=True)
+                s2.pop()
+            enc = 'True' if z3.is_true(val) else 'False'
+            cases.append({'kind': 'eval', 'program': f'({x}) in range({a},{b},{c})'})
+            meta.append((f'{x} in range({a},{b},{c})', enc))
+    sess.absorb(ex)
+    res = rp.run(cases, 'dev')
+    n = 0
+    for (what, enc), g in zip(meta, res):
+        n += 1
+        if enc == 'err':
+            ok = 'err' in g
+        else:
+            ok = g.get('ok') == enc
+        if not ok:
+            mism.append(f'{what}: encoding says {enc}, native build says {str(g)[:120]}')
+    return n, mism
